@@ -1,4 +1,68 @@
-From Dns Require Import Model.Msg.
-(* placeholder until the layout theorems land *)
-Theorem placeholder_c01 : kind_of_type 65280 = "RFC3597"%string.
-Proof. reflexivity. Qed.
+(* Props/C01.v — property C01: wire encoding is lossless and matches the RFC
+   layouts.  Only statements; proofs in Proofs/LayoutProofs.v, HeaderProofs.v,
+   NameRoundtripProofs.v.
+
+   The per-type field sequences (Gen/Layouts.v) are regenerated from zmsg.go on
+   every run; Spec/RfcLayouts.v is the frozen RFC table.  The field codecs that
+   interpret a layout (Model/Rdata.v) are tied to msg_helpers.go by the
+   correspondence check for every type on every run; the generic round-trip
+   theorem over all field kinds is work in progress (partial) — names, the
+   header word and the RCODE split are proved below. *)
+From Dns Require Import Model.Msg Spec.RfcLayouts Proofs.LayoutProofs Proofs.HeaderProofs
+  Proofs.NameRoundtripProofs Gen.Layouts Gen.Registry.
+Open Scope N_scope.
+
+(* every type's pack() walks exactly the fields the RFCs prescribe, in order,
+   with the prescribed widths and compression flags *)
+Theorem layouts_match_the_rfcs :
+  map (fun L => (tl_name L, tl_pack L)) layouts = rfc_layouts.
+Proof. exact layouts_are_rfc. Qed.
+
+(* unpack() of every type reads the same fields in the same order as pack() writes *)
+Theorem pack_and_unpack_walk_the_same_fields :
+  forallb (fun L => sides_agree (tl_pack L) (tl_unpack L)) layouts = true.
+Proof. exact pack_unpack_sides_agree. Qed.
+
+(* every registered type code has a field layout and a length description *)
+Theorem every_registered_type_has_a_layout :
+  forallb (fun tk : N * string =>
+             match find_layout layouts (base_kind (snd tk)), len_terms_of (base_kind (snd tk)) with
+             | Some _, Some _ => true | _, _ => false end) type_to_rr = true.
+Proof. exact registry_complete. Qed.
+
+(* all 2^16 flag/opcode/RCODE words: unpacking the word and packing the header
+   fields again gives the word back *)
+Theorem header_word_roundtrip :
+  forall (w id : N) qs an ns ex,
+    w < 65536 -> hdr_word (msg_of_bits id w qs an ns ex (w mod 16)) = w.
+Proof. intros w id qs an ns ex H. exact (hdr_word_roundtrip w id qs an ns ex H). Qed.
+
+(* every combination of the eight flags, opcode 0..15 and low RCODE 0..15
+   survives pack followed by unpack *)
+Theorem header_fields_roundtrip :
+  forallb (fun q => forallb (fun a => forallb (fun t => forallb (fun r => forallb (fun v => forallb (fun z =>
+  forallb (fun d => forallb (fun c => forallb (fun op => forallb (fun rc =>
+    let m := flag_msg q a t r v z d c op rc in
+    flags_eq (msg_of_bits 0 (hdr_word m) [] [] [] [] (hdr_word m mod 16)) m)
+  (upto 16)) (upto 16)) bools) bools) bools) bools) bools) bools) bools) bools = true.
+Proof. exact flags_sweep. Qed.
+
+(* the 12-bit RCODE: the upper eight bits written into the OPT TTL by Pack are
+   what Unpack reads back, the other OPT TTL bits are untouched, and joining them
+   with the low four header bits gives the RCODE again, for all 0..4095 *)
+Theorem extended_rcode_split_and_rejoined :
+  forall (r : rr) (rc : N),
+    rc < 4096 ->
+    N.lor (rc mod 16) (ext_rcode_of_ttl (rr_ttl (set_ext_rcode r rc))) = rc /\
+    rr_ttl (set_ext_rcode r rc) mod 16777216 = rr_ttl r mod 16777216.
+Proof.
+  intros r rc H. split; [rewrite ext_rcode_set_get; apply rcode_rejoin, H|apply set_ext_rcode_keeps_low_bits].
+Qed.
+
+(* names: wire -> text -> wire is the identity on every valid name (C03) *)
+Theorem names_roundtrip :
+  forall (ls : list label) (cap : N) (post : bytes),
+    valid_wire ls = true -> 320 <= cap ->
+    pack_name_plain (show_name ls) cap = Ok (wire_name ls) /\
+    unpack_name (wire_name ls ++ post) 0 = Ok (show_name ls, wire_len ls).
+Proof. intros ls cap post Hv Hc. split; [apply pack_show_name; assumption|apply unpack_wire_name, Hv]. Qed.
